@@ -191,6 +191,9 @@ class Translator:
             ops = {ast.Add: '+', ast.Sub: '-', ast.Mult: '*', ast.FloorDiv: '/', ast.Mod: 'mod'}
             if isinstance(e.op, ast.Add) and ta == 'str' and tb == 'str':
                 return f'({a} ++ {b})%string', 'str'
+            if isinstance(e.op, ast.Add) and ta.startswith('list:') and tb.startswith('list:'):
+                t = self.join(ta, tb)
+                return f'({a} ++ {b})', t
             if type(e.op) not in ops or ta != 'int' or tb != 'int':
                 raise TransError('binary operator')
             return f'({a} {ops[type(e.op)]} {b})', 'int'
@@ -375,6 +378,13 @@ class Translator:
                 if len(a3) == 2:
                     return f'(py_range {a3[0][0]} {a3[1][0]} 1)', 'list:int'
                 return f'(py_range {a3[0][0]} {a3[1][0]} {a3[2][0]})', 'list:int'
+            if isinstance(f, ast.Name) and f.id == 'list' and len(e.args) == 1 and not e.keywords and isinstance(e.args[0], ast.Call) \
+                    and isinstance(e.args[0].func, ast.Name) and e.args[0].func.id == 'chain' and not e.args[0].keywords and e.args[0].args:
+                parts = [self.as_list(x, env, binds) for x in e.args[0].args]
+                t = None
+                for _, tp in parts:
+                    t = self.join(t, tp)
+                return '(' + ' ++ '.join(p_ for p_, _ in parts) + ')', t
             if isinstance(f, ast.Name) and f.id == 'sorted' and len(e.args) == 1 and len(e.keywords) == 1 and e.keywords[0].arg == 'key' \
                     and ast.unparse(e.keywords[0].value) == 'lambda x: x.pos':
                 v, t = self.expr(e.args[0], env, binds)
@@ -495,6 +505,28 @@ class Translator:
             raise TransError('call')
         raise TransError(f'expression {type(e).__name__}')
 
+    def as_list(self, x, env, binds):
+        """An iterable handed to chain() / extend(): a list, range(a, b), or `range(a, b) if c else []`."""
+        if isinstance(x, ast.Call) and isinstance(x.func, ast.Name) and x.func.id == 'range' and not x.keywords and len(x.args) in (1, 2):
+            a = [self.expr(y, env, binds) for y in x.args]
+            if any(t != 'int' for _, t in a):
+                raise TransError('range over non-integers')
+            return (f'(py_range 0 {a[0][0]} 1)' if len(a) == 1 else f'(py_range {a[0][0]} {a[1][0]} 1)'), 'list:int'
+        if isinstance(x, ast.IfExp):
+            c, tc = self.expr(x.test, env, binds)
+            if tc != 'bool':
+                raise TransError('condition of a conditional iterable')
+            ia, ib = [], []
+            a, ta = self.as_list(x.body, env, ia)
+            b, tb = self.as_list(x.orelse, env, ib)
+            if ia or ib:
+                raise TransError('conditional iterable whose branches may raise')
+            return f'(if {c} then {a} else {b})', self.join(ta, tb)
+        v, t = self.expr(x, env, binds)
+        if not t.startswith('list:'):
+            raise TransError('iterable that is not a list or a range')
+        return v, t
+
     def bind_args(self, args, keywords, fn, formal, key, env, binds):
         """Positional arguments, then keywords by name, then the defaults of the callee (constants)."""
         if len(args) > len(formal):
@@ -600,7 +632,7 @@ class Translator:
                 lp = self.loops[-1]
                 lp['tails'].append([env[a][1] for a in lp['accs']])
                 tup = self.acc_tuple([env[a][0] for a in lp['accs']])
-                return (f'Ok (inl {tup})' if lp['exit'] else f'Ok {tup}'), 'acc'
+                return (f'Ok (inl {tup})' if (lp['exit'] or lp.get('while')) else f'Ok {tup}'), 'acc'
             if self.procedure:
                 return 'Ok tt', 'unit'
             raise TransError('a path without return')
@@ -617,7 +649,8 @@ class Translator:
                 binds = []
                 v, t = self.expr(st.value, env, binds)
                 self.loops[-1]['rets'].append(t)
-                return self.wrap(binds, f'Ok (inr (Some {v}))' if self.wrap_some else f'Ok (inr {v})'), 'acc'
+                val = f'(Some {v})' if self.wrap_some else v
+                return self.wrap(binds, f'Ok (inr (inr {val}))' if self.loops[-1].get('while') else f'Ok (inr {val})'), 'acc'
             if isinstance(st.value, ast.Constant) and st.value.value is None:
                 return 'Ok None', 'option'
             binds = []
@@ -690,6 +723,20 @@ class Translator:
             env2[name] = (cname(name), 'list:' + t)
             body, tb = self.block(rest, env2)
             return self.wrap(binds, f'let {cname(name)} := ({env[name][0]} ++ [{v}]) in {body}'), tb
+        if isinstance(st, ast.Expr) and isinstance(st.value, ast.Call) and isinstance(st.value.func, ast.Attribute) and st.value.func.attr == 'extend' \
+                and isinstance(st.value.func.value, ast.Name) and len(st.value.args) == 1 and not st.value.keywords:
+            name = st.value.func.value.id
+            if name not in env or not env[name][1].startswith('list:'):
+                raise TransError('extend of a non-list')
+            binds = []
+            v, t = self.as_list(st.value.args[0], env, binds)
+            t2 = self.join(env[name][1], t)
+            env2 = dict(env)
+            env2[name] = (cname(name), t2)
+            body, tb = self.block(rest, env2)
+            return self.wrap(binds, f'let {cname(name)} := ({env[name][0]} ++ {v}) in {body}'), tb
+        if isinstance(st, ast.While):
+            return self.while_loop(st, rest, env)
         if isinstance(st, ast.Assign) and len(st.targets) == 1 and isinstance(st.targets[0], ast.Subscript) and isinstance(st.targets[0].value, ast.Name):
             # a[i] = <byte literal> on an array('B') (any other value could raise OverflowError)
             name = st.targets[0].value.id
@@ -705,7 +752,7 @@ class Translator:
             env2[name] = (cname(name), 'list:int')
             body, tb = self.block(rest, env2)
             return self.wrap(binds, f'do {cname(name)} <- py_set {env[name][0]} {i} {st.value.value}; {body}'), tb
-        if isinstance(st, ast.Expr) and isinstance(st.value, ast.Call) and isinstance(st.value.func, ast.Attribute) and st.value.func.attr != 'append':
+        if isinstance(st, ast.Expr) and isinstance(st.value, ast.Call) and isinstance(st.value.func, ast.Attribute) and st.value.func.attr not in ('append', 'extend'):
             # a call made for its exception only (self.validate_...(x)): a translated procedure
             binds = []
             v, t = self.expr(st.value, env, binds)
@@ -806,7 +853,7 @@ class Translator:
                     else:
                         raise TransError('assignment target inside a loop')
             elif isinstance(st, ast.Expr) and isinstance(st.value, ast.Call) and isinstance(st.value.func, ast.Attribute) \
-                    and isinstance(st.value.func.value, ast.Name) and st.value.func.attr == 'append':
+                    and isinstance(st.value.func.value, ast.Name) and st.value.func.attr in ('append', 'extend'):
                 add(st.value.func.value.id)
             elif isinstance(st, ast.If):
                 self.assigned(st.body, out)
@@ -815,6 +862,8 @@ class Translator:
                 if not isinstance(st.target, ast.Name):
                     raise TransError('loop target')
                 add(st.target.id)
+                self.assigned(st.body, out)
+            elif isinstance(st, ast.While):
                 self.assigned(st.body, out)
             elif isinstance(st, (ast.Return, ast.Raise, ast.Assert, ast.Expr, ast.Pass)):
                 if isinstance(st, ast.Expr) and not self.is_docstring(st):
@@ -890,6 +939,69 @@ class Translator:
             term = f'do {k} <- fold_x {fn} {lst} {init}; match {k} with inr _v => Ok _v | inl _acc => let {pat} := _acc in {after} end'
             return self.wrap(binds, term), self.join(tr, ta)
         return self.wrap(binds, f'do {k} <- fold_m {fn} {lst} {init}; let {pat} := {k} in {after}'), ta
+
+    def while_loop(self, st, rest, env):
+        """while X > 0 / X >= 0 (X an integer variable the body decreases): recursion on fuel X + 1 (X + 2); running out of fuel - the body did
+        not decrease X - is the error value OtherErr.  The body may `return`."""
+        if st.orelse:
+            raise TransError('while loop with else')
+        t_ = st.test
+        if not (isinstance(t_, ast.Compare) and len(t_.ops) == 1 and isinstance(t_.ops[0], (ast.Gt, ast.GtE)) and isinstance(t_.left, ast.Name)
+                and isinstance(t_.comparators[0], ast.Constant) and t_.comparators[0].value == 0 and t_.left.id in env and env[t_.left.id][1] == 'int'):
+            raise TransError('while loop whose condition is not `variable > 0` / `variable >= 0`')
+        counter = t_.left.id
+        names = self.assigned(st.body, [])
+        if counter not in names:
+            raise TransError('while loop that never rebinds its counter')
+        accs = [n for n in names if n in env]
+        has_ret = any(isinstance(n, ast.Return) for b in st.body for n in ast.walk(b))
+        if self.loops:
+            raise TransError('while loop inside another loop')
+        types = {a: env[a][1] for a in accs}
+        for _ in range(4):
+            loop_env = dict(env)
+            for a in accs:
+                loop_env[a] = (cname(a), types[a])
+            self.loops.append({'accs': accs, 'exit': has_ret, 'while': True, 'tails': [], 'rets': []})
+            try:
+                cbinds = []
+                c, tc = self.expr(st.test, loop_env, cbinds)
+                body, _tb = self.block(st.body, loop_env)
+            finally:
+                info = self.loops.pop()
+            new = dict(types)
+            for tail in info['tails']:
+                for a, t in zip(accs, tail):
+                    if new[a] == 'list:?' and t.startswith('list:'):
+                        new[a] = t
+                    elif t != new[a] and t != 'list:?':
+                        raise TransError(f'loop variable {a} changes type: {new[a]} / {t}')
+            if new == types:
+                break
+            types = new
+        else:
+            raise TransError('loop accumulator types do not settle')
+        env2 = dict(env)
+        for a in accs:
+            env2[a] = (cname(a), types[a])
+        for n in names:
+            if n not in accs:
+                env2.pop(n, None)
+        k = self.tmp()
+        pat = self.acc_pattern([cname(a) for a in accs])
+        tup = self.acc_tuple([cname(a) for a in accs])
+        init = self.acc_tuple([env[a][0] for a in accs])
+        done = f'Ok (inr (inl {tup}))' if has_ret else f'Ok (inr {tup})'
+        fn = f'(fun _acc => let {pat} := _acc in {self.wrap(cbinds, f"if {c} then {body} else {done}")})'
+        fuel = f'(S (Z.to_nat {env[counter][0]}))' if isinstance(t_.ops[0], ast.Gt) else f'(S (S (Z.to_nat {env[counter][0]})))'
+        after, ta = self.block(rest, env2)
+        if has_ret:
+            tr = None
+            for t in info['rets']:
+                tr = self.join(tr, t)
+            term = f'do {k} <- while_x {fuel} {fn} {init}; match {k} with inr _v => Ok _v | inl _acc => let {pat} := _acc in {after} end'
+            return term, self.join(tr, ta)
+        return f'do {k} <- while_m {fuel} {fn} {init}; let {pat} := {k} in {after}', ta
 
     def ends(self, stmts):
         last = [s for s in stmts if not self.is_docstring(s)][-1]
